@@ -711,13 +711,14 @@ def classify_twist(repo, b, L=None, rv=None):
             else:
                 break
         idx = None
-        if t[0] == "call" and t[1].d.startswith("crate::groups::G::<P>::") and len(t[2]) == 1 and strip(t[2][0]) == ("init", ("deref", 1)):
+        me = (("init", ("deref", 1)), ("param", 1))       # the point, taken by reference or by value
+        if t[0] == "call" and t[1].d.startswith("crate::groups::G::<P>::") and len(t[2]) == 1 and strip(t[2][0]) in me:
             gb = repo.F.bodies.get(t[1].d)
             if gb is not None:
                 grv = strip(repo.tb(gb).return_value())
-                if grv[0] == "field" and strip(grv[1]) == ("init", ("deref", 1)):
+                if grv[0] == "field" and strip(grv[1]) in me:
                     idx = grv[2]
-        elif t[0] == "field" and strip(t[1]) == ("init", ("deref", 1)):
+        elif t[0] == "field" and strip(t[1]) in me:
             idx = t[2]
         elif t[0] == "call" and depth < 3:
             e = expand_call(repo, t, same_file(repo, b))
